@@ -331,7 +331,7 @@ theorem edge_need {t t' : Tag} {a : Abs} {s0 s : St} (he : edgeOk t t' a = true)
   unfold need
   unfold rankBound at *
   have key : s0.b.current < s.b.current → s0.b.current < len E →
-      48 * (len E - s.b.current) + rank t' (peek E s) < 48 * (len E - s0.b.current) + rank t (peek E s0) := by
+      22 * (len E - s.b.current) + rank t' (peek E s) < 22 * (len E - s0.b.current) + rank t (peek E s0) := by
     intro h1 h2; omega
   cases a with
   | adv => exact key hs.1 hs.2
